@@ -326,9 +326,10 @@ namespace c11
       });
     }
     if(b.node)
-      for(const auto& nm : b.node->get_mesh_part_names())
+      for(const auto& nm_ : b.node->get_mesh_part_names())
       {
-        const MeshPart<M>* p = b.node->find_mesh_part(nm);
+        const std::string nm(nm_);
+        const MeshPart<M>* p = b.node->find_mesh_part(nm_);
         Index pnv = p->get_num_entities(0);
         for_dims<0, dim>([&](auto dc) {
           constexpr int d = decltype(dc)::value;
@@ -352,8 +353,9 @@ namespace c11
         }
       }
     if(b.atlas)
-      for(const auto& kv : b.atlas->get_mesh_chart_map())
+      for(const auto& kv_ : b.atlas->get_mesh_chart_map())
       {
+        const std::pair<std::string, const Atlas::ChartBase<M>*> kv(std::string(kv_.first), kv_.second.get());
         J c = chart_to_J<M>(*kv.second);
         const J* cc = &c;
         if(c.gets("type") == "extrude") { cc = c.get("sub"); if(!cc) { range("extrude without sub chart"); continue; } }
